@@ -76,14 +76,14 @@ func c02Serve(c *c02Case, perm []int) c02Obs {
 	regHost := func(k int) {
 		g := e.Host(c.Hosts[k].Host)
 		for i, r := range c.Hosts[k].Routes {
-			g.Add(r.Method, r.Path, mk(k+1, i))
+			rAddVia(g, i+k+len(r.Path), r.Method, r.Path, mk(k+1, i))
 		}
 	}
 	for pos, i := range perm {
 		for _, k := range hostAt[pos] {
 			regHost(k)
 		}
-		e.Add(c.Routes[i].Method, c.Routes[i].Path, mk(0, i))
+		rAddVia(e, i+len(c.Routes[i].Path), c.Routes[i].Method, c.Routes[i].Path, mk(0, i))
 	}
 	for _, k := range hostAt[len(perm)] {
 		regHost(k)
